@@ -501,7 +501,44 @@ type debModel struct {
 	CtlCut      int // > 0: the control tar is compressed in two parts cut here (see compressParts)
 	DataCut     int
 	ZstWindow   int // > 0: zstd members are raw-block frames declaring a window of 2^ZstWindow bytes
+	V7          bool // the tar members carry old-style (pre-POSIX) headers: no "ustar" magic
 }
+
+// tarToV7 rewrites every header of a ustar archive as an old-style V7 header: magic, version,
+// owner names, device numbers and prefix are blanked and the checksum is recomputed.  tar(1)
+// --format=v7 writes such archives; GNU tar, dpkg and archive/tar read them.
+func tarToV7(t []byte) []byte {
+	t = append([]byte{}, t...)
+	for o := 0; o+512 <= len(t); {
+		h := t[o : o+512]
+		if bytes.Count(h, []byte{0}) == 512 {
+			break
+		}
+		size, _ := strconv.ParseInt(strings.Trim(string(h[124:136]), " \x00"), 8, 64)
+		for i := 257; i < 500; i++ {
+			h[i] = 0
+		}
+		if h[156] == '0' {
+			h[156] = 0
+		}
+		copy(h[148:156], "        ")
+		sum := 0
+		for _, c := range h {
+			sum += int(c)
+		}
+		copy(h[148:156], fmt.Sprintf("%06o\x00 ", sum))
+		o += 512 + int((size+511)/512*512)
+	}
+	return t
+}
+
+var allBytes = func() string {
+	b := make([]byte, 256)
+	for i := range b {
+		b[i] = byte(i)
+	}
+	return string(b)
+}()
 
 func genDebModel(r *core.Rand) debModel {
 	m := debModel{BinaryText: "2.0\n"}
@@ -527,6 +564,12 @@ func genDebModel(r *core.Rand) debModel {
 	for n := r.Intn(4); n > 0; n-- {
 		m.DataFiles = append(m.DataFiles, tarFile{Name: "./usr/" + r.Pick([]string{"bin/foo", "share/doc/foo/copyright", "lib/libfoo.so.1", "x"}) + strconv.Itoa(n), Body: r.Str("abc\n\x00", r.Intn(400))})
 	}
+	if r.Chance(1, 8) {
+		// a payload that does not compress: the compressed member is larger than any read-ahead a
+		// decompressor takes when it is set up (4 KiB bufio, 32 KiB flate window, 64 KiB blocks)
+		m.DataFiles = append(m.DataFiles, tarFile{Name: "./usr/lib/blob", Body: r.Str(allBytes, r.Pick2(r.Range(5000, 9000), r.Range(33000, 70000)))})
+	}
+	m.V7 = r.Chance(1, 10)
 	m.CtlExt, m.DataExt = r.Pick(compExts), r.Pick(compExts)
 	if r.Chance(1, 5) {
 		// compressed in two members / streams / frames: cut on a tar block boundary (where a
@@ -561,10 +604,17 @@ func (m debModel) pack(ext string, tarBytes []byte, cut int) []byte {
 	return compressParts(ext, tarBytes, cut)
 }
 
+func (m debModel) tar(files []tarFile) []byte {
+	if m.V7 {
+		return tarToV7(buildTar(files))
+	}
+	return buildTar(files)
+}
+
 func (m debModel) members() []arMember {
 	ms := []arMember{{Name: "debian-binary", TS: "0", UID: "0", GID: "0", Mode: "100644", Data: []byte(m.BinaryText)},
-		{Name: "control.tar" + m.CtlExt, TS: "0", UID: "0", GID: "0", Mode: "100644", Data: m.pack(m.CtlExt, buildTar(m.CtlFiles), m.CtlCut)},
-		{Name: "data.tar" + m.DataExt, TS: "0", UID: "0", GID: "0", Mode: "100644", Data: m.pack(m.DataExt, buildTar(m.DataFiles), m.DataCut)}}
+		{Name: "control.tar" + m.CtlExt, TS: "0", UID: "0", GID: "0", Mode: "100644", Data: m.pack(m.CtlExt, m.tar(m.CtlFiles), m.CtlCut)},
+		{Name: "data.tar" + m.DataExt, TS: "0", UID: "0", GID: "0", Mode: "100644", Data: m.pack(m.DataExt, m.tar(m.DataFiles), m.DataCut)}}
 	return append(ms, m.Extra...)
 }
 
